@@ -175,6 +175,57 @@ func (o *osLockRun) waitOpen() bool {
 	}
 }
 
+// closeWithReader calls Close while a read transaction is active: Close has to
+// wait for the reader; until it has returned the path must stay locked.
+func (o *osLockRun) closeWithReader() bool {
+	tx, err := o.f.BeginReadonly()
+	if err != nil {
+		return o.violate("beginro-failed", "BeginReadonly failed: %v", err)
+	}
+	done := make(chan error, 1)
+	f := o.f
+	go func() { done <- f.Close() }()
+	for i := 0; i < 40; i++ {
+		time.Sleep(100 * time.Microsecond)
+		l := flock.NewFlock(o.path + ".lock")
+		got, lerr := l.TryLock()
+		if got {
+			l.Unlock()
+		}
+		select {
+		case cerr := <-done:
+			tx.Close()
+			o.f = nil
+			return o.violate("close-returned-early", "File.Close returned (%v) although a read transaction was still active", cerr)
+		default:
+		}
+		if lerr == nil && got {
+			// Close has not returned yet (checked after the probe), but the lock could be taken
+			tx.Close()
+			<-done
+			o.f = nil
+			return o.violate("lock-released-before-close-returned", "while File.Close is still waiting for an active read transaction, an independent flock on the lock file succeeds (a second Open would get the file)")
+		}
+	}
+	o.res.Add("close_with_reader_probes", 40)
+	if err := tx.Close(); err != nil {
+		return o.violate("close-ro", "closing the read transaction failed: %v", err)
+	}
+	select {
+	case cerr := <-done:
+		o.f = nil
+		if cerr != nil {
+			return o.violate("fclose-error", "Close failed: %v", cerr)
+		}
+	case <-time.After(20 * time.Second):
+		o.res.Status, o.res.Note = core.Inconclusive, "close-did-not-return"
+		o.bad = true
+		return false
+	}
+	o.step("close while a read transaction was active")
+	return o.lockFree("Close (with reader)")
+}
+
 func writeHeaderSlot(path string, off int64, mutate func(b []byte)) error {
 	fh, err := os.OpenFile(path, os.O_RDWR, 0)
 	if err != nil {
@@ -311,7 +362,12 @@ func runOSLockCase(c *core.Case) *core.Result {
 	}
 	n := 6 + r.Intn(10)
 	for i := 0; i < n && !o.bad; i++ {
-		switch r.Pick([]int{20, 25, 35, 10, 10}) {
+		switch r.Pick([]int{20, 25, 35, 10, 10, 10}) {
+		case 5:
+			if o.f == nil && !o.open() {
+				break
+			}
+			o.closeWithReader()
 		case 0:
 			if o.f == nil {
 				o.open()
